@@ -577,6 +577,10 @@ func Run(t *testing.T, o Options, main func()) (s *Sched) {
 				s.sleeping = true
 				s.cur = nil
 				<-s.wakeSched
+				// Timers with one and the same deadline fire one after the other, with goroutines
+				// running in between: let the instant pass completely (1 ns of virtual time) so that
+				// every thread whose timer is due has been woken before the next decision is taken.
+				time.Sleep(time.Nanosecond)
 				s.sleeping = false
 				continue
 			}
@@ -653,9 +657,12 @@ func Run(t *testing.T, o Options, main func()) (s *Sched) {
 				}
 				s.sleeping = true
 				s.cur = nil
+				// wake up just AFTER the deadline: the scheduler's own timer must not compete with the
+				// threads' timers of the same instant (their firing order is not defined)
 				select {
 				case <-s.wakeSched:
-				case <-time.After(next.Sub(now)):
+					time.Sleep(time.Nanosecond)
+				case <-time.After(next.Sub(now) + time.Nanosecond):
 				}
 				s.sleeping = false
 				continue
